@@ -227,6 +227,22 @@ def main():
         return 2
     prop, tier = sys.argv[1].upper(), sys.argv[2]
     replay = sys.argv[sys.argv.index("--replay") + 1] if "--replay" in sys.argv else None
+    replay_schedule = None
+    if replay and replay.endswith(".json"):
+        # a replay file written by an earlier VIOLATION line: take the recorded op list (or, for the
+        # thread property, the recorded schedule)
+        payload = json.load(open(replay, encoding="utf-8"))
+        fail = payload.get("failure", {})
+        if "ops" in payload:
+            os.makedirs(os.path.join(VERIF, "work"), exist_ok=True)
+            replay = os.path.join(VERIF, "work", "replay-%s-%d.ops" % (prop, os.getpid()))
+            with open(replay, "w", encoding="utf-8") as fh:
+                fh.write("\n".join(payload["ops"]) + "\n")
+        elif fail.get("schedule") and fail.get("target"):
+            replay_schedule = fail
+            replay = None
+        else:
+            replay = None
     seed = int(os.environ.get("VERIF_SEED", "0") or 0)
     t0 = time.time()
     mod = importlib.import_module("props." + prop.lower())
@@ -276,7 +292,15 @@ def main():
 
     # ---- property-specific static checks on generated data (may report counter-examples) --
     extra = {}
-    if hasattr(mod, "extra_checks"):
+    if replay_schedule is not None and hasattr(mod, "replay_schedule"):
+        extra = mod.replay_schedule(replay_schedule) or {}
+        for f in extra.get("failures", []):
+            k = match_known(f, known)
+            if k:
+                known_hits.setdefault(k["id"], []).append(f)
+            else:
+                violations.append(f)
+    elif hasattr(mod, "extra_checks"):
         try:
             extra = mod.extra_checks(tier, seed, build_ok) or {}
         except Exception as e:  # noqa: BLE001
